@@ -36,9 +36,11 @@ class Divergence(Exception):
 class SchedLock:
     """Drop-in for threading.Lock whose blocking is visible to the scheduler."""
 
-    def __init__(self):
+    def __init__(self, reentrant=False):
         self.owner = None
         self.sched = None
+        self.reentrant = reentrant
+        self.depth = 0
 
     def acquire(self, blocking=True, timeout=-1):
         s = self.sched
@@ -46,14 +48,22 @@ class SchedLock:
             self.owner = "outside"
             return True
         tid = s.current_tid()
+        if self.reentrant and self.owner == tid:
+            self.depth += 1
+            return True
         s.point(tid, ("lock", "acquire"))
         while self.owner is not None:
             s.block(tid, self)
         self.owner = tid
+        self.depth = 1
         return True
 
     def release(self):
         s = self.sched
+        if self.reentrant and self.depth > 1:
+            self.depth -= 1
+            return
+        self.depth = 0
         self.owner = None
         if s is not None and s.current_tid() is not None:
             s.unblock(self)
@@ -82,8 +92,8 @@ class LockRegistry:
         self.locks = []
         self.current = None
 
-    def make(self):
-        l = SchedLock()
+    def make(self, reentrant=False):
+        l = SchedLock(reentrant)
         l.sched = self.current
         self.locks.append(l)
         return l
@@ -108,6 +118,22 @@ def reload_with_sched_locks(module, registry):
     finally:
         threading.Lock = real
     return module
+
+
+def swap_module_locks(registry, prefix="tensora"):
+    """Replace, in place, every module-level threading.Lock / RLock object of the loaded modules under `prefix` by a
+    scheduler-aware lock (code that says `with some_lock:` looks the global up at run time).  A change that adds a
+    lock to the library must not hang the cooperative scheduler - and contention on it becomes a scheduling point."""
+    lock_types = (type(threading.Lock()), type(threading.RLock()))
+    swapped = []
+    for name, mod in list(sys.modules.items()):
+        if mod is None or not (name == prefix or name.startswith(prefix + ".")):
+            continue
+        for attr, val in list(vars(mod).items()):
+            if isinstance(val, lock_types):
+                setattr(mod, attr, registry.make(reentrant=isinstance(val, lock_types[1])))
+                swapped.append(f"{name}.{attr}")
+    return swapped
 
 
 class Execution:
